@@ -127,7 +127,7 @@ def setSubjects : List Val → Nat → Env → Env
 
 def errStr : Err → String
   | .geNull => "E:ge-null" | .index => "E:index" | .slice => "E:slice" | .access => "E:access"
-  | .compile => "E:compile"
+  | .compile => "E:compile" | .utf8 => "E:utf8"
 
 def evStr : Ev → String
   | .subj => "S" | .guard i => s!"G{i}" | .body i => s!"B{i}"
